@@ -59,6 +59,7 @@ static struct {
     struct vs_options opt;
     int64_t clock_ns;
     int spurious_left;
+    int create_faults_left;
     int pruned;
     char note[64];                /* harness annotation appended to a deadlock message (which phase of the script the owner is in) */
     long cell[VS_NCELL];
@@ -173,7 +174,7 @@ static uint64_t fingerprint(void) {
     }
     for (int i = 0; i < G.nm; i++) h = vs_mix(h, (uint64_t)(G.M[i].owner + 1));
     for (int i = 0; i < G.nc; i++) { h = vs_mix(h, G.C[i].nw); for (int k = 0; k < G.C[i].nw; k++) h = vs_mix(h, G.C[i].w[k]); }
-    h = vs_mix(h, (uint64_t)G.clock_ns + (uint64_t)G.spurious_left);
+    h = vs_mix(h, (uint64_t)G.clock_ns + (uint64_t)G.spurious_left + ((uint64_t)G.create_faults_left << 8));
     for (int i = 0; i < VS_NCELL; i++) if (G.cell[i]) h = vs_mix(h, ((uint64_t)i << 48) ^ (uint64_t)G.cell[i]);
     if (G.opt.state_cb) h = vs_mix(h, G.opt.state_cb());
     return h ? h : 1;
@@ -331,7 +332,7 @@ void vs_begin(struct vs_slot *slot, const struct vs_options *opt) {
     memset(G.cell, 0, sizeof G.cell);
     G.slot = slot; G.opt = *opt;
     if (G.opt.horizon <= 0) G.opt.horizon = 20000;
-    G.spurious_left = G.opt.spurious; G.note[0] = 0; G.pruned = 0;
+    G.spurious_left = G.opt.spurious; G.note[0] = 0; G.pruned = 0; G.create_faults_left = G.opt.create_faults;
     slot->rec.pruned_at = VS_MAXP + 1; slot->rec.new_states = 0; slot->rec.table_full = 0;
     G.clock_ns = 1700000000LL * 1000000000LL;
     slot->rec.n = 0; slot->nev = 0; slot->outcome = VS_OUT_RUNNING; slot->msg[0] = 0; slot->steps = 0; slot->parked_any = 0;
@@ -484,6 +485,10 @@ int pthread_create(pthread_t *th, const pthread_attr_t *attr, void *(*fn)(void *
     if (!controlled()) return REAL(pthread_create)(th, attr, fn, arg);
     VThread *me = self;
     if (G.nt >= VS_MAXT) fatal_outcome(VS_OUT_HORIZON, "more than %d controlled threads", VS_MAXT);
+    if (G.create_faults_left > 0) {
+        /* environment fault: the system cannot create a thread right now.  The default answer is success; the failure is an alternative that costs 1 like a preemption. */
+        if (choose(2, VS_F_RUNNING_ENABLED, 0xC4EA7Eu) == 1) { G.create_faults_left--; log_event(VS_EV_CREATE_FAILED, me->id, -1, EAGAIN); return EAGAIN; }
+    }
     VThread *t = &G.T[G.nt];
     memset(t, 0, sizeof *t);
     t->id = G.nt; t->state = ST_READY; t->fn = fn; t->arg = arg; t->go = 0;
